@@ -219,6 +219,8 @@ Definition unit_ok (c : bcode) (ce : bcert) (p : nat) : bool :=
   match cat ce p with
   | None => true
   | Some st => forallb (edge_ok ce) (nsuccs (bat c p) p st ++ esuccs st)
+               (* a reachable POP_BLOCK has a block to pop (CPython itself relies on this) *)
+               && negb (is_pop_block (bat c p) && match st with [] => true | _ => false end)
   end.
 
 Definition check_bcert (c : bcode) (ce : bcert) : bool :=
